@@ -53,7 +53,7 @@ def expected_ok(kind, verdict, brief):
         return False
     # a harmful change must be decided by a property-level clause or an internal obligation, not by an exact clause alone
     def deciding(b):
-        mo = re.search(r'ensures\[([^\]]*)\]', b)
+        mo = re.search(r':: ensures\[([^\]]*)\]', b)   # function-level clause (closureK_ensures[..] / loopK_invariant[..] are internal)
         return (mo is None) or mo.group(1).startswith('p_')
     return any(b.startswith('V ') and deciding(b) for b in brief)
 
